@@ -85,6 +85,7 @@ fn main() {
             }
         }
         "c14-child" => exit(pgverif::props::c14::child_main()),
+        "c18-child" => exit(pgverif::props::c18::child_main()),
         _ => usage(),
     }
 }
